@@ -53,7 +53,13 @@ pub fn main(args: &[String]) {
     let mut w = CaseWriter::new(out_dir, "mod", header, "mcase", "check_module", 12);
     let feats = env::walrus_features(false);
     let mut viol: Vec<Json> = vec![]; let mut samples: Vec<String> = vec![];
-    let mut inputs: Vec<(String, Vec<u8>)> = fixtures();
+    // the corpus of minimised past failures / known findings runs first
+    let mut inputs: Vec<(String, Vec<u8>)> = vec![];
+    if let Ok(rd) = std::fs::read_dir("/verif/corpus/mod") { let mut ps: Vec<_> = rd.filter_map(|e| e.ok()).map(|e| e.path()).collect(); ps.sort();
+        for p in ps { let nm = format!("corpus:{}", p.file_name().unwrap().to_string_lossy());
+            match p.extension().and_then(|e| e.to_str()) { Some("wat") => if let Ok(b) = std::fs::read_to_string(&p).map_err(|e| e.to_string()).and_then(|t| wat::parse_str(&t).map_err(|e| e.to_string())) { inputs.push((nm, b)); },
+                Some("hex") => if let Ok(t) = std::fs::read_to_string(&p) { let t = t.trim(); inputs.push((nm, (0..t.len() / 2).filter_map(|i| u8::from_str_radix(&t[2 * i..2 * i + 2], 16).ok()).collect())); }, _ => {} } } }
+    inputs.extend(fixtures());
     let n_fix = inputs.len();
     let mut ai = genattr::AInfo::default(); let mut n_invalid = 0u64;
     let mut k = 0; while k < n_attr { let (wasm, info) = genattr::module(&mut r, true);
